@@ -1129,7 +1129,11 @@ func (f *SQLFormatter) needsQuoting(ident string) bool {
 		"BETWEEN": true, "EXISTS": true, "CASE": true, "WHEN": true, "THEN": true,
 		"ELSE": true, "END": true, "DISTINCT": true, "ALL": true, "UNION": true,
 	}
-	return reserved[strings.ToUpper(ident)]
+	if reserved[strings.ToUpper(ident)] {
+		return true
+	}
+	// every other word the tokenizer types as a keyword: ask the library's serialiser
+	return strings.HasPrefix((&ast.Identifier{Name: ident}).SQL(), `"`)
 }
 
 func (f *SQLFormatter) writeNewline() {
